@@ -15,6 +15,9 @@ func init() {
 		},
 		NotDecided: []string{"correctness of container/heap", "global sortedness (follows from the decided protocol + heap correctness + per-source order, argued in DESIGN.md)", "the race detector's dynamic view"},
 		Rules: func(r *Run) {
+			ruleFetchContainers(r) // every listed container is selected (and read) at most once
+			ruleOwnWrapScoped(r, []string{dockerlogPkg}, 2)
+			ruleDaemonLog(r) // records are conserved unaltered: the record body is a copy of the reused frame buffer, never an alias
 			rulePVGo(r)
 			ruleMergeIter(r)
 			ruleOpenLogContext(r)
